@@ -165,6 +165,7 @@ def run_machine(job):
     trace = []
     fail = {}
     stats = {'calls': 0, 'mutations': 0, 'sequences': 0, 'mutate-then-same-registry': 0}
+    seqs = []
 
     class Fail(Exception):
         pass
@@ -175,11 +176,16 @@ def run_machine(job):
             self.last = None
             self.last_i = None
             stats['sequences'] += 1
+            self.seq = []
+            if len(seqs) < 3:
+                seqs.append(self.seq)
 
         def _call(self, i):
             spec = pool[i]
             c, val = do_call(spec)
             trace.append({'op': 'call', 'i': i})
+            if len(self.seq) < 14:
+                self.seq.append('%s.%s(%s)' % (spec['m'], spec['f'], ', '.join(repr(core.dec(x))[:30] for x in spec.get('a', []))))
             stats['calls'] += 1
             self.last, self.last_i = val, i
             if c != pristine[i] and not fail:
@@ -195,6 +201,7 @@ def run_machine(job):
             if self.last is not None:
                 vandalise(self.last)
                 trace.append({'op': 'mutate'})
+                self.seq.append('<mutate returned object in place>')
                 stats['mutations'] += 1
 
         @rule()
@@ -222,7 +229,7 @@ def run_machine(job):
     except BaseException as e:  # noqa: B902
         if not fail:
             return {'trace_len': len(trace), 'fail': None, 'stats': stats, 'error': repr(e)[:300]}
-    out = {'trace_len': len(trace), 'fail': fail or None, 'stats': stats}
+    out = {'trace_len': len(trace), 'fail': fail or None, 'stats': stats, 'sample_sequences': seqs}
     if fail:
         out['trace'] = trace[:fail['at']]
     return out
